@@ -174,6 +174,8 @@ pub struct Snap {
     pub l_out: f64,
     pub l_aux: f64,
     pub l_e_out: f64,
+    /// `LocoTrait::get_energy_loss()` of the locomotive (the loss total it reports)
+    pub l_loss_reported: f64,
     pub l_e_aux: f64,
     pub l_i: usize,
 }
@@ -185,6 +187,7 @@ pub fn snap(l: &Locomotive) -> Snap {
     s.l_out = l.state.pwr_out.value;
     s.l_aux = l.state.pwr_aux.value;
     s.l_e_out = l.state.energy_out.value;
+    s.l_loss_reported = l.get_energy_loss().value;
     s.l_e_aux = l.state.energy_aux.value;
     s.l_i = l.state.i;
     s.is_conv = matches!(&l.loco_type, PowertrainType::ConventionalLoco(_));
@@ -343,6 +346,12 @@ pub fn oracle_c01(p: &Snap, s: &Snap, info: &StepInfo, checks: &mut u64) -> Fail
         (s.res_e_chem, sinks, s.res_e_chem.abs() + s.ed_e_mech_out.abs() + s.res_e_loss + s.ed_e_loss)
     };
     chk(&mut f, close(src, sinks, tot.max(sc)), &format!("unit-ledger-cumulative:{kind}"), || format!("energy drawn {src} J vs wheel+aux+losses {sinks} J"));
+    // the loss total the locomotive reports = sum of the component losses
+    if !s.is_hyb {
+        cnt.set(cnt.get() + 1);
+        let want = if s.is_conv { s.fc_e_loss + s.gen_e_loss + s.ed_e_loss } else { s.res_e_loss + s.ed_e_loss };
+        chk(&mut f, close(s.l_loss_reported, want, want.abs().max(sc)), &format!("reported-loss-total=sum-of-component-losses@Locomotive::get_energy_loss:{kind}"), || format!("get_energy_loss() {} J vs component losses {want} J", s.l_loss_reported));
+    }
     // wheel energy = mech_prop_out - dyn brake, cumulatively
     cnt.set(cnt.get() + 1);
     chk(&mut f, close(s.l_e_out, s.ed_e_mech_out - s.ed_e_dyn, (s.ed_e_mech_out.abs() + s.ed_e_dyn).max(sc)), &format!("wheel-energy=mech_out-dyn_brake-cumulative:{kind}"), || format!("{} vs {}", s.l_e_out, s.ed_e_mech_out - s.ed_e_dyn));
